@@ -19,8 +19,19 @@ def poke(rng, c):
     """put one extreme value somewhere; returns a description"""
     sc = c["scalar"]
     v = rng.choice(extremes(sc))
-    where = rng.choice(["x", "y", "w", "alpha", "alpha_all", "set"])
+    where = rng.choice(["x", "y", "w", "alpha", "alpha_all", "set", "wlen", "wlen", "ylen"])
     m = c["meta"]
+    if where == "wlen":
+        # a weight vector of a wrong (but plausible) length: one per data element, one per column, off by one, empty
+        L = rng.choice([m["N"] * max(m["S"], 2)] * 5 + [m["S"], m["N"] + 1, max(m["N"] - 1, 0), 0, 2 * m["N"]])
+        c["build"] = [o for o in c["build"] if o[0] != "weights"] + [["weights", [hx(rng.uniform(0.5, 2.0), sc) for _ in range(L)]]]
+        return where, L
+    if where == "ylen":
+        ob = [o for o in c["build"] if o[0] == "obs"][-1]
+        L = rng.choice([m["N"] + 1, max(m["N"] - 1, 0), 0, 2 * m["N"]])
+        ob[1] = L
+        ob[2] = [[hx(rng.uniform(-1, 1), sc) for _ in range(L)] for _ in ob[2]]
+        return where, L
     if where == "x":
         c["model"]["x"][rng.randrange(m["N"])] = hx(v, sc)
     elif where == "y":
